@@ -18,6 +18,7 @@ from ..sym import show, walk_expr
 from ..facts import callee_name
 from ..common import short, trait_impls, coroutine_of, emptiness
 from .. import pathq
+from . import names
 from .c07 import socket_coroutine, is_param_msg
 
 EXPLANATION = __doc__
@@ -295,12 +296,12 @@ def run(ctx, f, rep):
     c04.check_registration(f, sub)
     n6 = 0
     for o in sub.obls:
-        if "PubSocketBackend" in o.key and o.rule == "R04.4":
+        if (names.of(f, "PubSocketBackend") in o.key or names.of(f, "XPubSocketBackend") in o.key) and o.rule == "R04.4":
             n6 += 1
             (rep.ok if o.ok else rep.bad)("R11.6", o.key.replace("R04.4", "R11.6", 1), o.what, o.loc, o.detail)
     rep.floor("R11.6", "registration obligations of the PUB and XPUB backends", n6, 4)
     for ty, outer in sorted(trait_impls(f, "MultiPeerBackend", "peer_connected").items()):
-        if "PubSocketBackend" not in ty:
+        if ty.split("::")[-1] not in (names.of(f, "PubSocketBackend"), names.of(f, "XPubSocketBackend")):
             continue
         co = coroutine_of(f, outer)
         fresh = 0
@@ -347,7 +348,7 @@ def run(ctx, f, rep):
         rep.floor("R11.5", "Ok exits of XPUB recv", n, 1)
     # PUB: one spawned reader per peer feeding the handler
     for ty, outer in trait_impls(f, "MultiPeerBackend", "peer_connected").items():
-        if not ty.endswith("PubSocketBackend") or "XPub" in ty:
+        if ty.split("::")[-1] != names.of(f, "PubSocketBackend"):
             continue
         co = coroutine_of(f, outer)
         spawned = 0
